@@ -394,7 +394,7 @@ class Registry:
                 elif n == 'pure':
                     c.pure = True
                 elif n == 'known':
-                    c.known.append(call)
+                    c.known.append((ast.literal_eval(call.args[0]), call.args[1]))
                 elif n == 'native':
                     for k in call.keywords:
                         c.native[k.arg] = k.value
